@@ -45,7 +45,7 @@ class C01(Check):
     ASSUMPTIONS = ['texts the format cannot express are excluded exactly as listed in the property (plus header values '
                    'with edge blanks, trailing backslash or the {{}} token, and header keys equal to a table name)',
                    'enum columns are compared as label text; unicode input columns must come back as byte strings at least as wide']
-    REQUIRED_COUNTERS = ('array_columns_longer_than_1000', 'writes_with_long_comment_lines', 'record_layout_view_permuted', 'record_layout_aligned', 'refusals_seen', 'zero_row_tables', 'float_cells_compared', 'string_cells_compared',
+    REQUIRED_COUNTERS = ('record_layout_titled', 'record_layout_longlong', 'array_columns_longer_than_1000', 'writes_with_long_comment_lines', 'record_layout_view_permuted', 'record_layout_aligned', 'refusals_seen', 'zero_row_tables', 'float_cells_compared', 'string_cells_compared',
                          'table_api_roundtrips', 'hdr_values_compared')
 
     def setup(self):
@@ -227,7 +227,7 @@ class C01(Check):
                 'single_not_list': ntab == 1 and rng.random() < 0.5,
                 'default_names': cls == 'mixed' and rng.random() < 0.15,
                 # memory layout of the record arrays handed to the writer (field order is the document's in every layout)
-                'field_layout': rng.choice(['packed', 'packed', 'packed', 'view_permuted', 'aligned']),
+                'field_layout': rng.choice(['packed', 'packed', 'packed', 'view_permuted', 'aligned', 'titled', 'longlong']),
                 # the free-text comments= argument of the writer: absent, one line of text, a list of lines (some long,
                 # some containing words that mean something to the format); they must never become content
                 'comments': self._comments(rng, names)}
